@@ -20,7 +20,7 @@ use std::task::{Context, Poll, Waker};
 use std::time::Duration;
 
 pub const GRID_MS: u64 = 250;
-pub const MAX_STEPS: u64 = 200_000;
+pub const MAX_STEPS: u64 = 3_000_000;
 
 #[derive(Clone, Debug)]
 pub enum Event {
@@ -54,6 +54,8 @@ struct GateSlot {
 
 pub struct Env {
     gates: RefCell<Vec<GateSlot>>,
+    /// ids of gates not yet released, in registration order
+    pending_gates: RefCell<Vec<usize>>,
     pub log: RefCell<Vec<Event>>,
     held: RefCell<Vec<actix_http::Payload>>,
     dispatched: RefCell<usize>,
@@ -61,6 +63,12 @@ pub struct Env {
     now_ms: RefCell<u64>,
     signal: RefCell<(bool, Option<Waker>)>,
     readers: RefCell<Vec<ExtReader>>,
+    /// per handler index: (request-body bytes handed to the application, body ended)
+    body_read: RefCell<Vec<(usize, bool)>>,
+    /// response-body bytes pulled from handler bodies
+    pulled: RefCell<usize>,
+    /// keep only lengths (not the bytes) of body events in the log
+    light_log: bool,
 }
 
 /// A request-body reader that lives in its own task: polled by the harness only when its own
@@ -87,6 +95,41 @@ impl Future for FlagWait {
 
 impl Env {
     fn push(&self, e: Event) {
+        let e = match e {
+            Event::BodyRead { handler, data } => {
+                let mut br = self.body_read.borrow_mut();
+                if br.len() <= handler && handler < 100_000 {
+                    br.resize(handler + 1, (0, false));
+                }
+                if let Some(x) = br.get_mut(handler) {
+                    x.0 += data.len();
+                }
+                if self.light_log {
+                    Event::BodyRead { handler, data: vec![] }
+                } else {
+                    Event::BodyRead { handler, data }
+                }
+            }
+            Event::BodyEnd { handler, kind } => {
+                let mut br = self.body_read.borrow_mut();
+                if br.len() <= handler && handler < 100_000 {
+                    br.resize(handler + 1, (0, false));
+                }
+                if let Some(x) = br.get_mut(handler) {
+                    x.1 = true;
+                }
+                Event::BodyEnd { handler, kind }
+            }
+            Event::ChunkPulled { handler, data } => {
+                *self.pulled.borrow_mut() += data.len();
+                if self.light_log {
+                    Event::ChunkPulled { handler, data: vec![] }
+                } else {
+                    Event::ChunkPulled { handler, data }
+                }
+            }
+            other => other,
+        };
         self.log.borrow_mut().push(e);
     }
     fn now(&self) -> u64 {
@@ -109,6 +152,7 @@ impl Gate {
         match self.id {
             None => {
                 self.id = Some(gates.len());
+                self.env.pending_gates.borrow_mut().push(gates.len());
                 gates.push(GateSlot { open: false, waker: Some(cx.waker().clone()) });
                 Poll::Pending
             }
@@ -531,8 +575,44 @@ pub struct Exec {
 
 #[derive(Debug, Clone, Default)]
 pub struct Peaks {
+    /// max of (bytes taken from the socket) - (stream offset handed to the application)
     pub read_ahead: usize,
+    pub read_ahead_at: (usize, usize, usize),
+    /// max of (response body bytes pulled from bodies) - (bytes accepted by the socket)
     pub write_behind: usize,
+}
+
+/// (body offset, wire offset relative to head end) at chunk boundaries of one request
+fn wire_map(r: &RequestSpec) -> Vec<(usize, usize)> {
+    match &r.framing {
+        Framing::None => vec![(0, 0)],
+        Framing::Cl(b) => vec![(0, 0), (b.len(), b.len())],
+        Framing::Chunked(chunks) => {
+            let mut v = vec![(0usize, 0usize)];
+            let (mut b, mut w) = (0usize, 0usize);
+            for c in chunks {
+                let size_line = format!("{:x}", c.data.len()).len() + c.ext.len() + if c.lws { 1 } else { 0 } + 2;
+                // data of this chunk starts at w + size_line
+                v.push((b, w + size_line));
+                b += c.data.len();
+                w += size_line + c.data.len() + 2;
+                v.push((b, w));
+            }
+            v
+        }
+    }
+}
+
+fn wire_of(map: &[(usize, usize)], read: usize) -> usize {
+    // largest wire offset known to be delivered for `read` body bytes: the map is sorted by body
+    // offset (ties: framing entries), so take the last entry whose body offset is <= read
+    let idx = map.partition_point(|&(b, _)| b <= read);
+    if idx == 0 {
+        return 0;
+    }
+    let (b0, w0) = map[idx - 1];
+    let next_b = map.get(idx).map(|x| x.0).unwrap_or(b0);
+    w0 + (read.min(next_b.max(b0)) - b0)
 }
 
 #[derive(Clone, Copy, PartialEq, Eq, Debug)]
@@ -595,6 +675,7 @@ async fn drive(sc: &Scenario, chooser: Rc<RefCell<Chooser>>) -> Exec {
     io.borrow_mut().shutdown_never = sc.env.shutdown_never;
     let env = Rc::new(Env {
         gates: RefCell::new(vec![]),
+        pending_gates: RefCell::new(vec![]),
         log: RefCell::new(vec![]),
         held: RefCell::new(vec![]),
         dispatched: RefCell::new(0),
@@ -602,6 +683,9 @@ async fn drive(sc: &Scenario, chooser: Rc<RefCell<Chooser>>) -> Exec {
         now_ms: RefCell::new(0),
         signal: RefCell::new((false, None)),
         readers: RefCell::new(vec![]),
+        body_read: RefCell::new(vec![]),
+        pulled: RefCell::new(0),
+        light_log: sc.env.light_log,
     });
     let programs = Rc::new(sc.programs.clone());
 
@@ -639,6 +723,7 @@ async fn drive(sc: &Scenario, chooser: Rc<RefCell<Chooser>>) -> Exec {
         next_seg += 1;
     }
 
+    let wire_maps: Vec<Vec<(usize, usize)>> = if sc.env.gauges { sc.requests.iter().map(wire_map).collect() } else { vec![] };
     let mut conn = Box::pin(svc.call((ScriptIo::new(io.clone()), None)));
     let mut wk = WakeCounter::new();
     let waker = wk.waker();
@@ -691,9 +776,8 @@ async fn drive(sc: &Scenario, chooser: Rc<RefCell<Chooser>>) -> Exec {
             }
         }
         {
-            let gates = env.gates.borrow();
-            for (i, g) in gates.iter().enumerate() {
-                if !g.open {
+            if !sc.env.hold_gates {
+                for &i in env.pending_gates.borrow().iter() {
                     evs.push(Ev::Gate(i));
                 }
             }
@@ -860,6 +944,7 @@ async fn drive(sc: &Scenario, chooser: Rc<RefCell<Chooser>>) -> Exec {
             }
             Ev::Gate(i) => {
                 noprogress_polls = 0;
+                env.pending_gates.borrow_mut().retain(|&x| x != i);
                 let w = {
                     let mut g = env.gates.borrow_mut();
                     g[i].open = true;
@@ -911,22 +996,33 @@ async fn drive(sc: &Scenario, chooser: Rc<RefCell<Chooser>>) -> Exec {
                 now_ms += GRID_MS;
             }
         }
-        // C05 gauges
-        {
-            let i = io.borrow();
-            let handed: usize = env
-                .log
-                .borrow()
-                .iter()
-                .map(|e| match e {
-                    Event::BodyRead { data, .. } => data.len(),
-                    _ => 0,
-                })
-                .sum();
-            let _ = handed;
-            let _ = &i;
+        // C05 gauges: what the connection holds in memory, seen from outside
+        if sc.env.gauges {
+            let consumed = io.borrow().rpos;
+            let out_len = io.borrow().out.len();
+            let dispatched = *env.dispatched.borrow();
+            let br = env.body_read.borrow();
+            // stream offset up to which everything was handed to the application
+            let mut delivered = 0usize;
+            for i in 0..dispatched.min(wire_maps.len()) {
+                let (read, ended) = br.get(i).copied().unwrap_or((0, false));
+                let (_, head_end, end) = stream.spans[i];
+                delivered = if ended && read >= wire_maps[i].last().map(|x| x.0).unwrap_or(0) {
+                    end
+                } else {
+                    head_end + wire_of(&wire_maps[i], read)
+                };
+            }
+            let ra = consumed.saturating_sub(delivered);
+            if ra > peaks.read_ahead {
+                peaks.read_ahead = ra;
+                peaks.read_ahead_at = (consumed, delivered, dispatched);
+            }
+            let wb = env.pulled.borrow().saturating_sub(out_len);
+            if wb > peaks.write_behind {
+                peaks.write_behind = wb;
+            }
         }
-        let _ = &mut peaks;
     }
 
     let snap = {
